@@ -6,6 +6,7 @@
  "replace": [],
  "annotate": ["datastruct/elasticarray.c"],
  "defines": ["VERIF_HALLOC"],
+ "thorough_defines": ["EA_MAXOBJ=4096"],
  "cbmc": ["--memory-leak-check"],
  "native": true,
  "timeout": 120
